@@ -6,3 +6,32 @@ use crate::{exec::Trace, oracles::Violation, spec::Config};
 pub fn explain(_cfg: &Config, _tr: &Trace, _v: &Violation) -> Option<&'static str> {
     None
 }
+
+/// Does the stream contain a `Hook::Failed` in an attempt that is retried?
+pub fn has_nonfinal_hook_failure(tr: &Trace) -> bool {
+    use crate::canon::{Ev, HookEv, ScEv};
+    tr.events.iter().any(|e| {
+        matches!(
+            &e.ev,
+            Ev::Sc { retries: Some((_, left)), ev: ScEv::Hook(_, HookEv::Failed(..)), .. } if *left > 0
+        )
+    })
+}
+
+/// C01 `hook-failed-nonfinal-counted`: the run is reported failed, nothing
+/// failed finally, and the stream has a hook failure in a retried attempt —
+/// i.e. the verdict equals the reference recomputed with the single rule
+/// "every `Hook::Failed` counts as a final failure".
+pub fn explain_pipe(
+    _cfg: &Config,
+    tr: &Trace,
+    v: &Violation,
+    _stack: crate::pipe::Stack,
+) -> Option<&'static str> {
+    if matches!(v.key.as_str(), "false-failure" | "libtest-false-failure")
+        && has_nonfinal_hook_failure(tr)
+    {
+        return Some("hook-failed-nonfinal-counted");
+    }
+    None
+}
